@@ -44,7 +44,7 @@ if os.path.exists(rm_path):
     r123 = {k: r for k, r in rm.items() if int(k.split("-")[1]) <= 9 or int(k.split("-")[1]) >= 12}
     r4 = {k: r for k, r in rm.items() if int(k.split("-")[1]) in (10, 11)}
     un4 = sorted(k for k, r in r4.items() if r.get("undecided") and not r.get("alarms"))
-    out.append("\n### 11.5 Behaviour-preserving refactorings and which checks stay silent\n\n%d refactorings (15 per property: 4 from a first round, 3 heavier ones from a second, 2 composite ones from a third, 2 renames / moves / signature / representation changes from a fourth, 2 composite ones aimed at the support code around the anchored functions from a fifth, 2 that had to stay out of the anchored functions altogether from a sixth; `refactors/<id>/patch.diff` + `meta.json` with the equivalence argument; each compiles and keeps all ctest entries green) are applied one at a time to a scratch copy of /repo HEAD and all 20 checks are run (`tools/refac_matrix.py /verif/refactors`). A check may stay silent (exit 0) or say it cannot decide (exit 2); exit 1 would be a false alarm.\n\nResult: **%d of %d** refactorings raise an alarm%s. Rounds 1-3, 5 and 6 (%d patches): undecided (ANALYSIS-BROKEN by one check): %s. Round 4 (%d patches: something the rules name was renamed, moved or re-represented): %d silent, %d declined by at least one check (%s).\n" % (
+    out.append("\n### 11.5 Behaviour-preserving refactorings and which checks stay silent\n\n%d refactorings (17 per property: 4 from a first round, 3 heavier ones from a second, 2 composite ones from a third, 2 renames / moves / signature / representation changes from a fourth, 2 composite ones aimed at the support code around the anchored functions from a fifth, 2 that had to stay out of the anchored functions altogether from a sixth, 2 aimed at state kept between calls and at families of sibling functions from a seventh; `refactors/<id>/patch.diff` + `meta.json` with the equivalence argument; each compiles and keeps all ctest entries green) are applied one at a time to a scratch copy of /repo HEAD and all 20 checks are run (`tools/refac_matrix.py /verif/refactors`). A check may stay silent (exit 0) or say it cannot decide (exit 2); exit 1 would be a false alarm.\n\nResult: **%d of %d** refactorings raise an alarm%s. Rounds 1-3 and 5-7 (%d patches): undecided (ANALYSIS-BROKEN by one check): %s. Round 4 (%d patches: something the rules name was renamed, moved or re-represented): %d silent, %d declined by at least one check (%s).\n" % (
         len(rm), len(al), len(rm), (" (" + ", ".join(al) + ")") if al else "", len(r123), ", ".join(k for k in un if int(k.split("-")[1].split(" ")[0]) not in (10, 11)) or "none", len(r4), len(r4) - len(un4), len(un4), ", ".join(un4)))
 body = "".join(out)
 p = os.path.join(H, "DESIGN.md")
